@@ -176,7 +176,7 @@ mod jvms {
 		}
 		fn vti(&mut self) -> R<()> { match self.u(1)? { 0..=6 => Ok(()), 7 | 8 => self.skip(2), t => Err(format!("verification type {t}")) } }
 		fn element(&mut self, depth: usize) -> R<()> {
-			if depth > 64 { return Err("element value nesting".into()); }
+			if depth > 5000 { return Err("element value nesting".into()); }
 			match self.u(1)? as u8 {
 				b'B' | b'C' | b'D' | b'F' | b'I' | b'J' | b'S' | b'Z' | b's' | b'c' => self.skip(2),
 				b'e' => self.skip(4),
@@ -200,7 +200,7 @@ mod jvms {
 		}
 		pub fn attributes(&mut self, depth: usize) -> R<()> { self.table(2, |w| w.attribute(depth)) }
 		fn attribute(&mut self, depth: usize) -> R<()> {
-			if depth > 8 { return Err("attribute nesting".into()); }
+			if depth > 2000 { return Err("attribute nesting".into()); }
 			let name_index = self.u(2)? as usize;
 			let name = self.utf8.get(name_index).cloned().flatten().ok_or(format!("attribute name index {name_index} is not a Utf8 entry"))?;
 			let len = self.u(4)? as usize;
@@ -350,6 +350,10 @@ impl<'a> RawGen<'a> {
 	fn attr(&mut self, depth: usize) -> AttributeInfo {
 		let kind = self.rng.below(if depth >= 2 { 29 } else { 31 });
 		let kind = if depth >= 2 && (kind == 1 || kind == 26) { 6 } else { kind };
+		self.attr_of_kind(depth, kind)
+	}
+	/// kind 0..=27: the attribute kinds the crate models, in declaration order; above: a name the crate does not model
+	fn attr_of_kind(&mut self, depth: usize, kind: usize) -> AttributeInfo {
 		let name = if kind <= 27 { ATTR_NAMES[kind] } else { ATTR_NAMES[28 + self.rng.below(4)] };
 		let ani = self.pool.utf8(name);
 		let i = self.idx();
@@ -563,6 +567,9 @@ fn has_wide(c: &ClassFile) -> bool { c.constant_pool.iter().any(is_wide) }
 
 /// a raw value: write, length, read back; oracle on the implementation alone; one CVal case
 fn through_value(r: &mut Report, stream: &str, c: &ClassFile, hyp: Option<bool>, emit: bool) -> Option<Vec<u8>> {
+	// the crate's _write/_len/_read (and the derived Clone/PartialEq/Debug) recurse over the nesting of the value: a stack
+	// overflow kills the process, so the input is recorded before it is handed over
+	fbh::report::crumb(&format!("property C20, stream {stream}\nthe harness died (stack overflow / abort / timeout) while this raw value was written with to_bytes()/write(), measured with length() or read back with ClassFile::read\nraw value (Rust Debug syntax of raw_class_file::ClassFile):\n{c:?}\n"));
 	let wr = impl_write(c);
 	let len = impl_length(c);
 	let shown = format!("{c:?}");
@@ -628,6 +635,7 @@ fn through_value_big(r: &mut Report, stream: &str, c: &ClassFile, hyp: Option<bo
 /// a byte string: read; when it is a well-formed class file (walker) it must be reproduced byte for byte
 fn through_bytes(r: &mut Report, stream: &str, b: &[u8], origin: &str, emit: bool) {
 	r.eval(&hex(b), b.len() > 24);
+	fbh::report::crumb(&format!("property C20, stream {stream} ({origin})\nthe harness died (stack overflow / abort / timeout) while ClassFile::read was reading these bytes (or while the value read was written again)\nclass file bytes (hex):\n{}\n", hex(b)));
 	let rd = impl_read(b);
 	let wf = jvms::check(b);
 	let replay = |what: &str, extra: String| format!("property C20, stream {stream} ({origin})\n{what}\nclass file bytes (hex):\n{}\n{extra}", hex(b));
@@ -655,7 +663,9 @@ fn through_bytes(r: &mut Report, stream: &str, b: &[u8], origin: &str, emit: boo
 			}
 		}
 	}
-	if emit { r.case(stream, format!("CBytes {} {g}", g_bytes(b))); }
+	// the walker's verdict goes into the case: the model compares it with the strict reader generated from the hand-written
+	// JVMS table of coq/C20/Jvms.v (two independent transcriptions of JVMS 4.1-4.7 must agree on every input)
+	if emit { r.count(if wf.is_ok() { "case_wellformed_for_walker" } else { "case_not_wellformed_for_walker" }); r.case(stream, format!("CBytes {} {} {g}", g_bytes(b), gbool(wf.is_ok()))); }
 }
 
 fn mutate(rng: &mut Rng, b: &mut Vec<u8>) {
@@ -818,6 +828,64 @@ fn boundary_values(thorough: bool) -> Vec<(String, ClassFile, bool, bool)> {
 	out
 }
 
+/// deep nesting: the crate's reader, writer and length recurse over element values in arrays / nested annotations and over
+/// attributes inside Code / Record components; (what, value, also a correspondence case).  All inside the hypotheses.
+fn nested_values() -> Vec<(String, ClassFile, bool)> {
+	let mut out = vec![];
+	let class = |names: &[&str], attributes: Vec<AttributeInfo>| ClassFile { minor_version: 0, major_version: 61, constant_pool: names.iter().map(|n| CpInfo::Utf8 { bytes: n.as_bytes().to_vec() }).collect(),
+		access_flags: 0x21, this_class: 0, super_class: 0, interfaces: vec![], fields: vec![], methods: vec![], attributes };
+	for (d, emit) in [(1usize, true), (12, true), (30, true), (300, false), (2000, false)] {
+		let mut e = ElementValue::Byte { const_value_index: 1 };
+		for i in 0..d { e = ElementValue::Array { values: if i % 7 == 3 { vec![ElementValue::Class { class_info_index: 1 }, e] } else { vec![e] } }; }
+		out.push((format!("AnnotationDefault: arrays nested {d} deep"), class(&["AnnotationDefault"], vec![AttributeInfo::AnnotationDefault { attribute_name_index: 1, default_value: e }]), emit));
+	}
+	for (d, emit) in [(10usize, true), (500, false)] {
+		let mut a = Annotation { type_index: 1, element_value_pairs: vec![] };
+		for _ in 0..d { a = Annotation { type_index: 1, element_value_pairs: vec![ElementValuePairsEntry { element_name_index: 1, value: ElementValue::Annotation { annotation_value: a } }] }; }
+		out.push((format!("RuntimeVisibleAnnotations: annotations nested {d} deep"), class(&["RuntimeVisibleAnnotations"], vec![AttributeInfo::RuntimeVisibleAnnotations { attribute_name_index: 1, annotations: vec![a] }]), emit));
+	}
+	for (d, emit) in [(3usize, true), (12, true), (150, false), (600, false)] {
+		let mut a = vec![AttributeInfo::LineNumberTable { attribute_name_index: 2, line_number_table: vec![LineNumberTableEntry { start_pc: 0, line_number: 1 }] }];
+		for _ in 0..d { a = vec![AttributeInfo::Code { attribute_name_index: 1, max_stack: 1, max_locals: 1, code: vec![0xb1], exception_table: vec![], attributes: a }]; }
+		out.push((format!("Code attributes nested {d} deep (attribute_length of each covers all inner ones)"), class(&["Code", "LineNumberTable"], a), emit));
+	}
+	for (d, emit) in [(10usize, true), (300, false)] {
+		let mut a = vec![AttributeInfo::Signature { attribute_name_index: 2, signature_index: 2 }];
+		for _ in 0..d { a = vec![AttributeInfo::Record { attribute_name_index: 1, components: vec![RecordComponentInfo { name_index: 1, descriptor_index: 2, attributes: a }] }]; }
+		out.push((format!("Record attributes nested {d} deep through their components"), class(&["Record", "Signature"], a), emit));
+	}
+	out
+}
+
+/// every attribute kind once, as the only attribute of a class, with its attribute_length exact, one too large and one too
+/// small: a prescribed (literal) length that is off makes the read fail, a computed one is read and written back repaired —
+/// either way the file is not well-formed (walker and JVMS table agree) and not reproduced
+fn crafted_lengths(seed: u64) -> Vec<(String, Vec<u8>)> {
+	let mut out = vec![];
+	for kind in 0..30usize {
+		let mut rng = Rng::new(seed.wrapping_mul(31).wrapping_add(kind as u64));
+		let mut g = RawGen { rng: &mut rng, pool: Pool::default(), budget: 8, wide: kind % 3 == 0 };
+		if kind % 3 == 0 { g.pool.push(CpInfo::Long { high_bytes: 1, low_bytes: 2 }); }
+		let attr = g.attr_of_kind(1, kind);
+		let pool = std::mem::take(&mut g.pool.e);
+		let name = match &attr { a => format!("{a:?}").split(' ').next().unwrap_or("?").to_string() };
+		let mk = |attributes: Vec<AttributeInfo>| ClassFile { minor_version: 0, major_version: 61, constant_pool: pool.clone(), access_flags: 0x21, this_class: 0, super_class: 0,
+			interfaces: vec![], fields: vec![], methods: vec![], attributes };
+		let at = mk(vec![]).length() + 2; // behind attributes_count and the attribute's name index
+		let base = mk(vec![attr]).to_bytes();
+		let len = u32::from_be_bytes([base[at], base[at + 1], base[at + 2], base[at + 3]]);
+		out.push((format!("{name}: attribute_length {len} (exact)"), base.clone()));
+		for d in [1i64, -1] {
+			let l2 = len as i64 + d;
+			if l2 < 0 { continue; }
+			let mut b = base.clone();
+			b[at..at + 4].copy_from_slice(&(l2 as u32).to_be_bytes());
+			out.push((format!("{name}: attribute_length {l2} instead of {len}"), b));
+		}
+	}
+	out
+}
+
 /// values outside the hypotheses of read_write, one stream per hypothesis
 fn gen_violating(rng: &mut Rng, which: usize) -> ClassFile {
 	let mut p = Pool::default();
@@ -886,7 +954,7 @@ fn crafted() -> Vec<(String, Vec<u8>)> {
 pub fn run(ctx: &Ctx) -> anyhow::Result<Report> {
 	let mut r = Report::new("C20", "C20.Run");
 	let mut rng = Rng::new(ctx.seed);
-	r.rule = "streams: corpus (javac 17 --release 8/11/17 classes vendored under corpus/C20, read + rewritten); shared-corpus (every class of corpus/classes — javac 8/11/17 output, 260 third-party/JDK classes, crafted ones; 76 of them with long/double constants — through the oracle, the smaller ones with 8-byte constants also as correspondence cases); raw (random raw ClassFile values over every struct/enum/variant the crate declares, attribute names interned so that tags resolve: inside the hypotheses of read_write); raw-wide (same with Long/Double pool entries in front of and behind the interned attribute names: indices are JVMS indices, an 8-byte constant takes two); valid (small semantically valid classes, also cross-read by duke::read_class and compared with the generator's ground truth); violating (one sub-stream per hypothesis of read_write: frame tags resolving elsewhere, u8 tag overflow, attribute names designating another/no name, count wider than its field); written (bytes the crate wrote, read as input); crafted (deterministic edits: wrong magic, pool count 0/1/65535, literal and computed attribute_length off, name index 0 / not Utf8 / past the pool / unknown name, giant counts, every truncation, trailing bytes; pools with 8-byte constants announced with every count around the right one, attribute names designating every index of such a pool incl. the unusable second index of a Long/Double — refused with an error, never a panic); mutated (1-3 byte edits/truncations of corpus and written files); positions (the attribute name as the only / first / middle / LAST pool entry, directly behind or in front of 8-byte constants, x six attribute kinds on class, field and method; a third of the raw values also end their pool with the name of their last attribute); boundary / boundary-violating (254..257 elements under a u8 count, 255/256/65535/65536/70000 under u16 counts and lengths incl. Utf8, constant_pool_count 65535 and 0 with one- and two-index entries, an attribute name at index 65534, attribute bodies of 65535/65536/70000 bytes under u32 lengths; the large ones oracle-only). Oracle on the implementation alone: length()==bytes written, write()==to_bytes() also through writers accepting 7..64 bytes per call, interrupted writers, a 16-byte BufWriter over them and an exact-length slice, an error into a slice one byte short, read(to_bytes(v))==v, files accepted by an independent strict JVMS walker are reproduced byte for byte and files the crate writes are accepted by it. Non-trivial: non-empty pool or attributes / more than 24 bytes; distinct by Debug text or bytes.".into();
+	r.rule = "streams: corpus (javac 17 --release 8/11/17 classes vendored under corpus/C20, read + rewritten); shared-corpus (every class of corpus/classes — javac 8/11/17 output, 260 third-party/JDK classes, crafted ones; 76 of them with long/double constants — through the oracle, the smaller ones with 8-byte constants also as correspondence cases); raw (random raw ClassFile values over every struct/enum/variant the crate declares, attribute names interned so that tags resolve: inside the hypotheses of read_write); raw-wide (same with Long/Double pool entries in front of and behind the interned attribute names: indices are JVMS indices, an 8-byte constant takes two); valid (small semantically valid classes, also cross-read by duke::read_class and compared with the generator's ground truth); violating (one sub-stream per hypothesis of read_write: frame tags resolving elsewhere, u8 tag overflow, attribute names designating another/no name, count wider than its field); written (bytes the crate wrote, read as input); crafted-lengths (each of the 28 modelled attribute kinds and two unknown ones as the only attribute of a class, attribute_length exact / one too large / one too small: prescribed lengths are refused, computed ones read and repaired); crafted (deterministic edits: wrong magic, pool count 0/1/65535, literal and computed attribute_length off, name index 0 / not Utf8 / past the pool / unknown name, giant counts, every truncation, trailing bytes; pools with 8-byte constants announced with every count around the right one, attribute names designating every index of such a pool incl. the unusable second index of a Long/Double — refused with an error, never a panic); mutated (1-3 byte edits/truncations of corpus and written files); nested (element values in arrays 1..2000 deep, annotations in annotations 10/500 deep, Code in Code 3..600 deep, Record in Record 10/300 deep: the recursion of reader, writer and length; the deepest oracle-only, with a crumb in case the process dies); positions (the attribute name as the only / first / middle / LAST pool entry, directly behind or in front of 8-byte constants, x six attribute kinds on class, field and method; a third of the raw values also end their pool with the name of their last attribute); boundary / boundary-violating (254..257 elements under a u8 count, 255/256/65535/65536/70000 under u16 counts and lengths incl. Utf8, constant_pool_count 65535 and 0 with one- and two-index entries, an attribute name at index 65534, attribute bodies of 65535/65536/70000 bytes under u32 lengths; the large ones oracle-only). Oracle on the implementation alone: length()==bytes written, write()==to_bytes() also through writers accepting 7..64 bytes per call, interrupted writers, a 16-byte BufWriter over them and an exact-length slice, an error into a slice one byte short, read(to_bytes(v))==v, files accepted by an independent strict JVMS walker are reproduced byte for byte and files the crate writes are accepted by it. Every byte-string correspondence case carries the walker's verdict, which the model compares with the strict reader generated from the hand-written JVMS table of coq/C20/Jvms.v (the notion of well-formedness of C20_reads_every_wellformed_class / C20_strict_accepts_iff). Non-trivial: non-empty pool or attributes / more than 24 bytes; distinct by Debug text or bytes.".into();
 	let (n_raw, n_valid, n_viol, n_mut) = if ctx.thorough { (3000, 900, 270, 3000) } else { (320, 100, 54, 300) };
 	r.shard_size = if ctx.thorough { 170 } else { 62 };
 
@@ -960,8 +1028,15 @@ pub fn run(ctx: &Ctx) -> anyhow::Result<Report> {
 		else if let Some(b) = through_value(&mut r, stream, &c, Some(fits), emit) { if fits { through_bytes(&mut r, "boundary-bytes", &b, &what, false); } }
 		r.count(if emit { "boundary_values_also_correspondence" } else { "boundary_values_oracle_only" });
 	}
+	// 4c deep nesting (recursion of reader, writer and length); the deeper ones are oracle-only (a stack overflow would show up
+	// through the crumb)
+	for (what, c, emit) in nested_values() {
+		if let Some(b) = through_value(&mut r, "nested", &c, Some(true), emit) { through_bytes(&mut r, "nested-bytes", &b, &what, false); }
+		r.count("nested_values");
+	}
 	// 5 crafted edits, then random mutations
 	for (what, b) in crafted() { through_bytes(&mut r, "crafted", &b, &what, true); }
+	for (what, b) in crafted_lengths(ctx.seed) { through_bytes(&mut r, "crafted-lengths", &b, &what, true); }
 	for (what, b) in crafted_wide() {
 		if impl_read(&b).is_err() { r.violation(format!("ClassFile::read panicked on: {what}"), format!("property C20, stream crafted-wide\nClassFile::read panics (an io::Error is expected) on: {what}\nclass file bytes (hex):\n{}", hex(&b))); }
 		if b.len() <= 500 { seeds.push(b.clone()); }
